@@ -7,3 +7,6 @@ import DiplomatModel.Props.C07
 #print axioms DiplomatModel.Props.C07.sameWire_view
 #print axioms DiplomatModel.Props.C07.dart_param_agree_partial
 #print axioms DiplomatModel.Props.C07.kt_param_agree_partial
+#print axioms DiplomatModel.Props.C07.dart_prim_some
+#print axioms DiplomatModel.Props.C07.sameWire_refl
+#print axioms DiplomatModel.Props.C07.dart_ty_agree
